@@ -741,6 +741,9 @@ where
             return;
         }
     }
+    // the stateless no-deduplication cross-check is a vacuity guard of the explorer, not something a memory monitor needs to
+    // watch: thousands of replayed sequences cost minutes under Miri
+    let stateless_depth = if cfg!(miri) { 0 } else { stateless_depth };
     let my = *unit;
     *unit += 1;
     let prefix = format!("C06;K={K};E={};", E::NAME);
